@@ -240,12 +240,72 @@ def w_find_path(case, led):
                       (repr(shape), i, j), {}, {"shape": repr(shape), "from": i, "to": j})
 
 
+def w_single_node(case, led):
+    """the smallest topology: a tree that is a single node carrying one or several basis sets (no bond at all) still behaves as its dense vector"""
+    nsets, flavour, seed = case
+    from renormalizer.tn import TTNS, TTNO, BasisTree
+    from renormalizer.tn.treebase import TreeNodeBasis
+    from renormalizer.model import Op
+    rng = np.random.default_rng([seed, nsets, 1111, sum(map(ord, flavour))])
+    created = [T.make_basis("spinqn" if flavour == "spinqn" else "spin", f"s{i}") for i in range(nsets)]
+    bt = BasisTree(TreeNodeBasis(created))
+    dims = [b.nbas for b in created]
+    key = ("single-node", nsets, flavour, seed)
+    rep = {"tree": "one node", "basis_sets": [repr(b) for b in created], "seed": seed}
+    qs = [0] if flavour == "spin" else list(range(0, nsets + 1))
+    for q in qs:
+        try:
+            a = TTNS.random(bt, q, 1, 1.0)
+            c = TTNS.random(bt, q, 1, 1.0)
+        except Exception as e:
+            led.ok("skipped:TTNS.random:raised", "TTNS.random", key + (q, type(e).__name__), nontrivial=False)
+            continue
+        for cplx in (False, True):
+            if cplx:
+                a, c = a.to_complex(), c.to_complex()
+                for x in (a, c):
+                    t = np.asarray(x.root.tensor)
+                    x.root.tensor = t * np.exp(2j * np.pi * rng.random(t.shape))
+            va, vc = T.dense_ttns(a, created), T.dense_ttns(c, created)
+            if np.abs(va).max() == 0 or np.abs(vc).max() == 0:
+                continue
+            k2 = key + (q, cplx)
+            led.check(va.shape == (int(np.prod(dims)),) and close(np.asarray(a.todense(created)).reshape(-1), va, 1e-12), "post:TTNS.todense:dense_vector", "TTNS.todense",
+                      "todense differs from the independent contraction", k2 + ("dense",), {"nodes": 1}, rep)
+            try:
+                s_ = a.add(c)
+                led.check(close(T.dense_ttns(s_, created), va + vc, 1e-12), "post:TTNS.add:dense_sum", "TTNS.add",
+                          f"single-node tree: |a.add(c) - (a + c)| = {np.abs(T.dense_ttns(s_, created) - (va + vc)).max():.3e} "
+                          f"(|result - c| = {np.abs(T.dense_ttns(s_, created) - vc).max():.1e})", k2 + ("add",), {"nodes": 1}, rep)
+                led.check(close(T.dense_ttns(a, created), va, 1e-14) and close(T.dense_ttns(c, created), vc, 1e-14), "frame:TTNS.add:operands", "TTNS.add", "add changed an operand",
+                          k2 + ("add-frame",), {"nodes": 1}, rep)
+            except Exception as e:
+                led.check(False, "post:TTNS.add:total", "TTNS.add", f"single-node tree: raised {type(e).__name__}: {e}", k2 + ("add",), {"nodes": 1}, rep)
+            try:
+                r_ = a.scale(0.5 - 0.25j if cplx else -1.5)
+                led.check(close(T.dense_ttns(r_, created), (0.5 - 0.25j if cplx else -1.5) * va, 1e-12) and close(T.dense_ttns(a, created), va, 1e-14), "post:TTNS.scale:dense_scale", "TTNS.scale",
+                          "single-node tree: scale wrong or operand changed", k2 + ("scale",), {"nodes": 1}, rep)
+            except Exception as e:
+                led.check(False, "post:TTNS.scale:total", "TTNS.scale", f"single-node tree: raised {type(e).__name__}: {e}", k2 + ("scale",), {"nodes": 1}, rep)
+            try:
+                terms = [Op("sigma_z", created[0].dofs[0], 0.7)] + ([Op("sigma_z sigma_z", [created[0].dofs[0], created[1].dofs[0]], -0.4)] if nsets > 1 else [])
+                Ho = TTNO(bt, terms)
+                Hd = T.dense_ttno(Ho, created)
+                ev = a.expectation(Ho)
+                led.check(abs(ev - np.vdot(va, Hd @ va)) <= 1e-10 * max(1.0, abs(ev)), "post:TTNS.expectation:dense_value", "TTNS.expectation", f"{ev} vs {np.vdot(va, Hd @ va)}",
+                          k2 + ("exp",), {"nodes": 1}, rep)
+                led.check(close(T.dense_ttns(Ho.apply(a), created), Hd @ va, 1e-12), "post:TTNO.apply:dense_product", "TTNO.apply", "single-node tree: H|a> wrong", k2 + ("apply",), {"nodes": 1}, rep)
+            except Exception as e:
+                led.check(False, "post:TTNS.expectation:total", "TTNS.expectation", f"single-node tree: raised {type(e).__name__}: {e}", k2 + ("exp",), {"nodes": 1}, rep)
+
+
 def check(run):
     from props import C11_sym
     guarded(run, C11_sym.prove)
     seeds = list(range(run.seed * 100, run.seed * 100 + (3 if run.tier == "quick" else 12)))
     cases = [(nn, fl, s, run.tier) for s in seeds for nn in ((2, 3, 4, 5) if run.tier == "quick" else (2, 3, 4, 5, 6)) for fl in ("spinqn", "holstein", "spin")]
     run_cases(run, worker, cases)
+    run_cases(run, w_single_node, [(ns, fl, run.seed) for ns in (1, 2, 3) for fl in ("spinqn", "spin")])
     run_cases(run, w_find_path, [(n, i) for n in (2, 3, 4, 5) for i in range(len(T.tree_shapes(n)))])
     run.rule = ("rooted ordered trees with 2..5(6) nodes sampled from the complete shape enumeration (each child order is a separate shape) x payloads {1-2 basis sets, dummy} x "
                 "flavours {spin+qn, electron-phonon, spin} x 2 sectors x real/complex states: constructor, todense(order), add/scale/copy/to_complex, TTNO.apply, canonicalise, "
